@@ -282,7 +282,7 @@ def chown (s : Store) (v : View) (name : Bytes) (uid gid : Int) (mode : SlMode) 
   match r.err, r.child with
   | .exists, some c =>
     match s.get c with
-    | some n => (s.set c (n.setMeta { n.meta with uid := uid, gid := gid }), .ok .unit)
+    | some n => (s.set c (n.setMeta { n.meta with uid := (if uid == -1 then n.meta.uid else uid), gid := (if gid == -1 then n.meta.gid else gid) }), .ok .unit)
     | none => (s, .panic)
   | e, _ => (s, .err e.toErr)
 
@@ -416,6 +416,7 @@ def truncate (s : Store) (v : View) (name : Bytes) (size : Int) : Store × Out :
   | some c =>
     match s.get c with
     | some (.file m d nl id) =>
+      if !checkPerm m omWrite v then (s, .err .EACCES) else
       (s.set c (.file m (truncData d size.toNat) nl id), .ok .unit)
     | _ => (s, .err .EISDIR)
 
